@@ -34,7 +34,15 @@ func (h *hist) liveness(maxCycles int) {
 		}
 		for _, a := range live {
 			if a.Core.Busy() {
-				return false, fmt.Sprintf("node %d busy", a.ID)
+				return false, fmt.Sprintf("node %d busy (pending loaded events %d)", a.ID, a.Hg.PendingLoadedEvents)
+			}
+			if a.WasReset {
+				// a node that fast-forwarded never delivers the blocks up to its anchor (the snapshot stands for
+				// them): it is compared on the index of its last block
+				if len(a.Final) == 0 || len(live[0].Final) == 0 || a.Store.LastBlockIndex() != live[0].Store.LastBlockIndex() {
+					return false, fmt.Sprintf("fast-forwarded node %d is at block %d, node %d at block %d", a.ID, a.Store.LastBlockIndex(), live[0].ID, live[0].Store.LastBlockIndex())
+				}
+				continue
 			}
 			got := map[int]bool{}
 			for _, b := range a.Final {
@@ -85,5 +93,42 @@ func (h *hist) liveness(maxCycles int) {
 	h.actions["live-cycles"] += cycles
 	if cycles > h.actions["live-max-cycles"] {
 		h.actions["live-max-cycles"] = cycles
+	}
+}
+
+// relagWake (C06 -relag): the validator that was silent from the start wakes up. It first receives a truncated
+// sync (so that it holds loaded events -- index-0 events, events with transactions -- that it has not committed),
+// then learns that it is too far behind and fast-forwards from a peer's anchor block, as node.fastForward does for
+// a node in the CatchingUp state. The fair suffix follows: the node must catch up and everybody must go idle.
+func (h *hist) relagWake() {
+	a := h.relagVictim
+	if a.WasReset || len(a.Final) > 0 {
+		return
+	}
+	servers := []*hx.Node{}
+	for _, b := range h.nodes {
+		if b != a && !b.Silent && b.Hg.AnchorBlock != nil {
+			servers = append(servers, b)
+		}
+	}
+	if len(servers) == 0 {
+		a.Silent = false
+		h.actions["relag-no-anchor"]++
+		return
+	}
+	a.Silent = false
+	b := servers[h.rng.Intn(len(servers))]
+	h.pull(a, b, 1+h.rng.Intn(8), false)
+	if len(a.Final) > 0 {
+		h.actions["relag-victim-delivered-before-reset"]++
+		return
+	}
+	h.actions["relag-pending-loaded-before-reset"] += a.Hg.PendingLoadedEvents
+	a.PendingFF = true
+	for tries := 0; a.PendingFF && tries < 25; tries++ {
+		h.fastForward(a)
+	}
+	if a.WasReset {
+		h.actions["relag-fast-forwards"]++
 	}
 }
